@@ -169,7 +169,8 @@ Definition spec11 (pf : bool -> string -> option N) (t : target) (n : nested) : 
       end
   | TFloat is64 =>
       match value_lit n with
-      | Some (_, LFloat d _) | Some (_, LStr d) => option_map VFloat (pf is64 d)
+      (* an unquoted literal means its decimal value, whether it was written with a fraction or not *)
+      | Some (_, LFloat d _) | Some (_, LStr d) | Some (_, LInt d _) => option_map VFloat (pf is64 d)
       | _ => None
       end
   | TBool | TAtomicBool =>
